@@ -64,7 +64,8 @@ CommitsOutput(ht, i, j) ==
     [] BaseType(ht) = SIGHASH_SINGLE -> j = i + 1
     [] OTHER -> TRUE
 \* does hash type h, signing input i (0-based) of a transaction with no outputs, commit to what edit e = [k, j, f] changes?
-\* (k: "in"/"out" field edits, "ver", "lock", "append-in", "remove-last-in", "append-out", "remove-last-out", "other-key", "none")
+\* (k: "in"/"out" field edits, "ver", "lock", "append-in", "remove-last-in", "append-out", "remove-last-out", "swap-out", "swap-in" with a
+\*  second position j2, "other-key", "none")
 CommitsEdit(h, i, no, e) ==
   CASE e.k = "in" -> CommitsInput(h, i, e.j, e.f)
     [] e.k = "out" -> CommitsOutput(h, i, e.j)
@@ -73,5 +74,8 @@ CommitsEdit(h, i, no, e) ==
     [] e.k \in {"append-in", "remove-last-in"} -> ~AnyoneCanPay(h)            \* the set of other inputs
     [] e.k = "append-out" -> BaseType(h) \notin {SIGHASH_NONE, SIGHASH_SINGLE}
     [] e.k = "remove-last-out" -> CommitsOutput(h, i, no)
+    \* reordering: two (different) outputs, or two inputs other than the signed one, exchange places
+    [] e.k = "swap-out" -> CommitsOutput(h, i, e.j) \/ CommitsOutput(h, i, e.j2)
+    [] e.k = "swap-in" -> ~AnyoneCanPay(h)
 
 =============================================================================
